@@ -442,6 +442,11 @@ func replayFile(t *testing.T, prop, path string) {
 				if first < 0 {
 					first = k
 					fmt.Println("SEARCH first hit:", v.Msg)
+					if os.Getenv("VERIF_DUMP") != "" {
+						for _, l := range excerpt(res.Evs, "", 100000) {
+							fmt.Println(l)
+						}
+					}
 				}
 			}
 		}
